@@ -136,7 +136,7 @@ def check(prop, tier, base_seed, runs, budget_s, workers, meta, batch=None, out=
     t0 = _clock()
     workers = max(1, workers)
     if batch is None:
-        batch = max(1, min(200, runs // (workers * 4) or 1))
+        batch = max(1, min(25, runs // (workers * 8) or 1))
     batches = [list(range(i, min(i + batch, runs))) for i in range(0, runs, batch)]
     ctx = multiprocessing.get_context("fork")
     agg = dict(runs=0, stats=collections.Counter(), faults=collections.Counter(), probes=collections.Counter(),
@@ -246,6 +246,32 @@ def check(prop, tier, base_seed, runs, budget_s, workers, meta, batch=None, out=
             lines.append(f"  clause={fv[1]} shape={fv[2]} seed={seed}: {fv[3][:400]}")
         reported.append(dict(clause=fv[1], shape=fv[2], seed=seed, replay=path, known=bool(known)))
 
+    post_info = None
+    eng = _engine_for(prop)
+    if hasattr(eng, "post_check") and not harness_error:
+        try:
+            pbad, post_info = eng.post_check(prop, tier, base_seed)
+            for clause, shape, msg, seed in pbad:
+                os.makedirs(os.path.join(VERIF, "replays"), exist_ok=True)
+                path = os.path.join(VERIF, "replays", f"{prop}-{clause}-{seed}.json")
+                t_ = Tape(seed=seed)
+                eng.run(t_, prop, tier)
+                with open(path, "w") as f:
+                    json.dump(dict(property=prop, tier=tier, seed=seed, base_seed=base_seed, clause=clause, shape=shape,
+                                   message=msg, tape=list(t_.used), note="cross-interpreter clause: re-run the check "
+                                   "(post_check) to reproduce; the tape regenerates the scenario"), f, indent=1)
+                known = match_finding(findings, prop, clause, shape)
+                if known:
+                    known_hits[known.get("id", "?")] += 1
+                    lines.append(f"KNOWN-FINDING: property={prop} {known.get('what', clause)} (replay={path})")
+                else:
+                    exit_code = 1
+                    lines.append(f"VIOLATION property={prop} replay={path}")
+                    lines.append(f"  clause={clause}: {msg[:400]}")
+                reported.append(dict(clause=clause, shape=shape, seed=seed, replay=path, known=bool(known)))
+        except Exception:
+            harness_error = "post_check raised:\n" + traceback.format_exc()
+
     wall = _clock() - t0
     ev = dict(
         property_id=prop, tier=tier, seed=int(base_seed), level=meta["level"],
@@ -270,6 +296,7 @@ def check(prop, tier, base_seed, runs, budget_s, workers, meta, batch=None, out=
             violations_reported=reported,
             known_findings_matched=dict(known_hits),
             other_property_violations_seen=dict(agg["other"]),
+            post_check=post_info,
             exhaustive=False,
         ),
         assumptions=meta["assumptions"],
@@ -314,3 +341,30 @@ def replay_file(path, out=sys.stdout):
     print(f"VIOLATION property={prop} replay={path}", file=out)
     print(f"  clause={fv[1]} shape={fv[2]} reproduced_exactly={same}: {fv[3][:1200]}", file=out)
     return 1
+
+
+def minimise_file(path, max_runs=6000, seconds=600, out=sys.stdout):
+    """Shrinks the tape of an existing replay file further (same property and clause), in place."""
+    with open(path) as f:
+        doc = json.load(f)
+    prop, tier, clause = doc["property"], doc.get("tier", "quick"), doc["clause"]
+
+    def still(c):
+        try:
+            r, _ = replay_tape(prop, tier, c)
+        except Exception:
+            return False
+        fv = r.first(prop)
+        return fv is not None and fv[1] == clause
+    if not still(doc["tape"]):
+        print(f"[minimise] {path}: does not reproduce {prop}/{clause} on this tree", file=out)
+        return 2
+    small, n = shrink(doc["tape"], still, max_runs=max_runs, deadline=_clock() + seconds, clock=_clock)
+    res, used = replay_tape(prop, tier, small)
+    fv = res.first(prop)
+    doc.update(tape=used, message=fv[3], shape=fv[2], digest=res.digest, scenario=res.sample,
+               shrink_runs=doc.get("shrink_runs", 0) + n)
+    with open(path, "w") as f:
+        json.dump(doc, f, indent=1, default=str)
+    print(f"[minimise] {path}: tape {len(doc['tape'])} values after {n} runs: {fv[3][:300]}", file=out)
+    return 0
